@@ -117,6 +117,26 @@ class A:
         raise TypeError("array == in a clause")
 
 
+class O:
+    """read-only view of a real object: attribute values are wrapped for clause evaluation"""
+
+    def __init__(self, obj):
+        object.__setattr__(self, "_obj", obj)
+
+    def __getattr__(self, name):
+        return wrap(getattr(object.__getattribute__(self, "_obj"), name))
+
+    def __eq__(self, o):
+        return isinstance(o, O) and object.__getattribute__(o, "_obj") is object.__getattribute__(self, "_obj")
+
+    __hash__ = object.__hash__
+
+
+CONCRETE = {"L2Cost": "skchange.costs.l2_cost", "GaussianVarCost": "skchange.costs.gaussian_var_cost", "CUSUM": "skchange.change_scores.cusum",
+            "L2Saving": "skchange.anomaly_scores.l2_saving"}
+CUT_ENTRIES = {"L2Cost": 2, "GaussianVarCost": 2, "CUSUM": 3, "L2Saving": 2}
+
+
 # ----------------------------------------------------------------------------- clause compilation
 class _Rewrite(ast.NodeTransformer):
     def visit_Call(self, node):
@@ -233,7 +253,11 @@ def gen_scalar(kind, rng, name=""):
 
 def gen_value(tstr, dims, rng, name):
     from pyvc.types import parse_type
-    ts = parse_type(tstr)
+    return gen_value_ts(parse_type(tstr), dims, rng, name)
+
+
+def gen_value_ts(ts, dims, rng, name):
+    tstr = str(ts)
     b = ts.base
     if b in ("int", "real", "bool"):
         if ts.const is not None:
@@ -267,12 +291,58 @@ def gen_value(tstr, dims, rng, name):
         if ts.elem == "nreal":     # float array holding nan or integers (back-pointer arrays)
             return np.array([float("nan") if rng.random() < 0.4 else float(rng.randint(-1, 6)) for _ in range(int(np.prod(shape)))], dtype=float).reshape(shape)
         raise _Skip(f"array elem {ts.elem}")
+    if b == "tuple":
+        return tuple(gen_value_ts(t, dims, rng, name) for t in ts.elem)
     if b == "list":
         k = rng.choice([0, 1, 2, 3])
         if isinstance(ts.elem, tuple):
             return [tuple(gen_scalar(kd, rng) for kd in ts.elem[1]) for _ in range(k)]
         return [gen_scalar(ts.elem, rng) for _ in range(k)]
     raise _Skip(f"type {tstr}")
+
+
+def make_object(c, dims, rng):
+    """real instance of the concrete scorer class named by the contract, hyper-parameters per the declared type of self.param,
+    fitted on random data when the contract declares self._is_fitted == True"""
+    from pyvc.types import parse_type
+    cls_name = c.params["self"].split(":", 1)[1]
+    cls = getattr(importlib.import_module(CONCRETE[cls_name]), cls_name)
+    xt = c.params.get("self._X", "any")
+    fitted = c.params.get("self._is_fitted") == "bool=True"
+    X0 = None
+    if fitted or rng.random() < 0.5:
+        X0 = gen_value(xt if xt.startswith("real[") else c.params.get("X", "real[n,p]"), dims if fitted else {}, rng, "X0")
+    if not fitted and "X" in c.params:
+        gen_value(c.params["X"], dims, rng, "X")        # fix n, p before the hyper-parameters that depend on p
+    kw = {}
+    if "self.param" in c.params:
+        ts = parse_type(c.params["self.param"])
+        v = gen_value_ts(ts, dims, rng, "param")
+        if ts.base == "tuple":        # (mean, var): var must be positive
+            v = (v[0], np.abs(v[1]) + 0.5 if isinstance(v[1], np.ndarray) else abs(v[1]) + 0.5)
+        kw["param"] = v
+    obj = cls(**kw)
+    if X0 is not None:
+        try:
+            obj.fit(X0)
+        except Exception:
+            if fitted:
+                raise _Reject()
+            obj = cls(**kw)
+    return obj
+
+
+def valid_cuts(c, obj, dims, rng):
+    """rows of increasing cut points inside [0, n] (mostly valid for the scorer), so that the value clauses are exercised"""
+    cls_name = c.params["self"].split(":", 1)[1]
+    k = CUT_ENTRIES[cls_name]
+    n = dims.get("n", 0)
+    rows = rng.choice([0, 1, 2, 3])
+    if n < k:
+        raise _Reject()
+    out = np.array([sorted(rng.sample(range(n + 1), k)) for _ in range(rows)], dtype=np.int64).reshape(rows, k)
+    dims["r"], dims["c"] = rows, k
+    return out
 
 
 class _Skip(Exception):
@@ -302,6 +372,15 @@ def smart(c, vals, dims, rng, ghosts=None):
         a = vals["prev_cpts"]
         for u in range(1, len(a) + 1):
             a[u - 1] = rng.randint(0, u - 1)
+    if c.ident == "check_cuts_array<int2d>" and rng.random() < 0.6:
+        r_, c_ = vals["cuts"].shape
+        vals["last_dim_size"] = c_
+        vals["min_size"] = rng.choice([0, 1, 1, 2])
+        for i in range(r_):
+            row = [rng.randint(0, 3)]
+            for _ in range(c_ - 1):
+                row.append(row[-1] + vals["min_size"] + rng.choice([0, 0, 1, 2]))
+            vals["cuts"][i, :] = row[:c_]
     if c.ident == "get_anomalies" and ghosts is not None:
         n = len(vals["anomaly_starts"])
         ghosts["m"] = rng.choice([2, 2, 3])
@@ -370,13 +449,18 @@ def amenable(c):
     text = " ".join(list(c.requires) + list(c.ensures.values()) + list(c.raises.values()))
     if any(t in text for t in _ABSTRACT):
         return False        # clauses over uninterpreted scorer / optimum functions: covered by the bounded drivers' oracles instead
-    tys = list(c.params.values()) + list(c.ghost_params.values())
-    return not any(v.startswith(("obj", "fn", "any", "opt", "series", "frame")) for v in tys)
+    tys = [v for k, v in c.params.items() if "." not in k and k != "self"] + list(c.ghost_params.values())
+    if any(v.startswith(("obj", "fn", "any", "opt", "series", "frame")) for v in tys):
+        return False
+    if "self" in c.params:
+        cls = c.params["self"].split(":", 1)[1]
+        return cls in CONCRETE and not any(v.startswith("obj") for k, v in c.params.items() if k != "self")
+    return True
 
 
 def check_contract(c, repo, rng, samples, budget_s=6.0):
     """returns dict(ident, accepted, tried, failures=[...], skipped=reason|None)"""
-    out = {"contract": c.ident, "accepted": 0, "tried": 0, "failures": [], "skipped": None}
+    out = {"contract": c.ident, "accepted": 0, "tried": 0, "failures": [], "skipped": None, "returned": 0, "raised": 0}
     try:
         fn = resolve(repo, c.target)
     except Exception as e:
@@ -397,9 +481,16 @@ def check_contract(c, repo, rng, samples, budget_s=6.0):
     while out["accepted"] < samples and time.time() - t0 < budget_s and out["tried"] < samples * 400:
         out["tried"] += 1
         dims, vals = {}, {}
+        obj = None
         try:
+            if "self" in c.params:
+                obj = make_object(c, dims, rng)
             for k in pnames:
+                if k == "self":
+                    continue
                 vals[k] = gen_value(c.params[k], dims, rng, k)
+            if obj is not None and "cuts" in vals and rng.random() < 0.7:
+                vals["cuts"] = valid_cuts(c, obj, dims, rng)
             ghosts = {g: gen_value(c.ghost_params[g], dims, rng, g) for g in gnames}
             vals = smart(c, vals, dims, rng, ghosts)
         except _Skip as e:
@@ -411,6 +502,8 @@ def check_contract(c, repo, rng, samples, budget_s=6.0):
         env.update({d: v for d, v in dims.items() if d.isidentifier()})
         env.update({k: wrap(v) for k, v in vals.items()})
         env.update({k: wrap(v) for k, v in ghosts.items()})
+        if obj is not None:
+            env["self"] = O(obj)
         try:
             for k, code in lets.items():
                 env[k] = eval(code, env)
@@ -423,8 +516,10 @@ def check_contract(c, repo, rng, samples, budget_s=6.0):
         for k, v in vals.items():
             env["__old_" + k] = wrap(copy.deepcopy(v))
         exc = None
+        if obj is not None:
+            env["__old_self"] = O(copy.deepcopy(obj))
         try:
-            res = fn(**args)
+            res = fn(obj, **args) if obj is not None else fn(**args)
         except Exception as e:        # noqa: BLE001 - the contract decides which exceptions are expected
             exc, res = e, None
         env.update({k: wrap(v) for k, v in args.items()})     # post-state of (possibly mutated) arguments
@@ -437,12 +532,13 @@ def check_contract(c, repo, rng, samples, budget_s=6.0):
         except Exception as e:      # noqa: BLE001
             out["failures"].append({"clause": "raises", "input": _show(vals), "what": f"raises clause not evaluable: {type(e).__name__}: {e}"})
             continue
+        out["raised" if exc is not None else "returned"] += 1
         if exc is not None or expected is not None:
             got = type(exc).__name__ if exc is not None else None
             if got != expected:
                 out["failures"].append({"clause": "raises", "input": _show(vals), "what": f"contract expects {expected}, real code raised {got}: {exc}"})
             continue
-        env["result"] = wrap(res)
+        env["result"] = O(res) if (obj is not None and res is obj) else wrap(res)
         for name, code in ens.items():
             try:
                 ok = bool(eval(code, env))
@@ -566,7 +662,7 @@ def main(argv):
     bad = 0
     for r in res:
         st = "SKIP " + r["skipped"] if r["skipped"] else ("FAIL" if r["failures"] else ("ok" if r["accepted"] else "NO-SAMPLE"))
-        print(f"{r['contract']:55} accepted={r['accepted']:3}/{r['tried']:5} {st}")
+        print(f"{r['contract']:62} accepted={r['accepted']:3}/{r['tried']:5} returned={r['returned']:3} raised={r['raised']:3} {st}")
         for f in r["failures"][:2]:
             print("     ", f["clause"], f["what"][:300], "\n      input:", str(f["input"])[:300])
         bad += bool(r["failures"])
